@@ -6,6 +6,9 @@ CONSTANTS Keys <- Keys7
  MaxOld = 3
  ReopenModes = {"same", "fresh", "restart"}
  Ticking = TRUE
+ NH = 1
+ Vias = {"delete", "empty"}
+ Flushes = {FALSE, TRUE}
  Merge = TRUE
 INVARIANTS TypeOK
 CHECK_DEADLOCK FALSE
